@@ -440,3 +440,51 @@ Section Int.
       + split; auto.
   Qed.
 End Int.
+
+(* ------------------------------------------------------------------ *)
+(* BudgetInputSet: wallet-input top-up                                 *)
+
+Lemma sumZ_app' : forall a b, sumZ (a ++ b) = sumZ a + sumZ b.
+Proof. unfold sumZ. induction a as [|x a IH]; intros b; cbn; [lia|]. rewrite IH. lia. Qed.
+
+(* spendable - budget = borrowable - needed: the two sides NeedWalletInput
+   compares differ from (spendable, Budget()) by the same amount *)
+Lemma need_balance : forall extra l,
+  spendable l - set_budget extra l = budget_borrowable l - budget_needed extra l.
+Proof.
+  intros extra l. unfold spendable, set_budget, budget_borrowable, budget_needed, sumZ.
+  induction l as [|i l IH]; cbn; [lia|]. destruct (b_req i); lia.
+Qed.
+
+Lemma no_need_covers_budget : forall extra l,
+  need_wallet_input extra l = false -> set_budget extra l <= spendable l.
+Proof.
+  intros extra l H. unfold need_wallet_input in H. apply Z.ltb_ge in H.
+  pose proof (need_balance extra l). lia.
+Qed.
+
+Lemma add_wallet_inputs_spec : forall extra utxos l l' st,
+  add_wallet_inputs extra l utxos = (l', st) ->
+  (exists k, l' = l ++ map (fun u => mkB u 0 false) (firstn k utxos)) /\
+  set_budget extra l' = set_budget extra l /\
+  (st = TopSatisfied -> need_wallet_input extra l' = false) /\
+  (st = TopNotEnoughInputs -> forall i, In i l' -> b_req i = true).
+Proof.
+  intros extra utxos. induction utxos as [|u r IH]; intros l l' st H; cbn in H.
+  - inversion H; subst; clear H. split; [exists O; cbn; rewrite app_nil_r; reflexivity|].
+    split; [reflexivity|]. split.
+    + destruct (existsb _ l'); discriminate.
+    + destruct (existsb (fun i => negb (b_req i)) l') eqn:E; [discriminate|]. intros _ i Hi.
+      destruct (b_req i) eqn:Er; [reflexivity|].
+      assert (existsb (fun i => negb (b_req i)) l' = true).
+      { apply existsb_exists. exists i. rewrite Er. auto. }
+      congruence.
+  - assert (Hb : set_budget extra (l ++ [mkB u 0 false]) = set_budget extra l).
+    { unfold set_budget. rewrite map_app, sumZ_app'. cbn. lia. }
+    destruct (need_wallet_input extra (l ++ [mkB u 0 false])) eqn:En.
+    + destruct (IH _ _ _ H) as ((k & Hk) & H2 & H3 & H4).
+      split; [exists (S k); cbn; rewrite Hk, <- app_assoc; reflexivity|].
+      split; [lia|]. auto.
+    + inversion H; subst; clear H.
+      split; [exists 1%nat; reflexivity|]. split; [exact Hb|]. split; [auto|discriminate].
+Qed.
